@@ -106,6 +106,8 @@ def run():
             nfield += line.count('"has":true')
     rep.set("internal_field_observations", nfield)
     c09.report_rejects(rep, rejA + rejB, filesA + filesB, "C10")
+    from ..drivers.system import system_phase
+    system_phase(rep, "C10", "path")
     e = json.loads(open(filesA[0]).readline())
     for s in e["steps"][:2]:
         rep.sample({"kids": e["pre"]["kids"], "pre": e["pre"]["path"], "call": s["call"], "post": s["post"]["path"], "field": s["field"]})
